@@ -411,41 +411,13 @@ Lemma complete_db_other : forall s k rl r bk v x, x <> k ->
   get (st_db (complete order s k rl r bk v)) x = get (st_db s) x.
 Proof. intros. unfold complete. cbn [set_db set_mem st_db unflag emit]. now apply get_update_other. Qed.
 
-Lemma run_frame : forall k stack r s, ~ done s k -> ~ In k stack ->
-  frame stack s k (run rules env F order ens k stack r s).
+Lemma run_frame_main : forall k stack r s s4 lA bk v, ~ done s k -> ~ In k stack ->
+  frame_st (k :: stack) (run_pre rules k r s) s4 true lA ->
+  forall s' ok lB, frame_st (k :: stack) (complete order (emit s4 (EAvail k)) k (rules k) r bk v) s' ok lB ->
+    frame_st stack s s' ok (lB ++ [EComplete k v; EAvail k] ++ lA ++ run_pre_log rules k r) /\ done s' k.
 Proof.
-  intros k stack r s Hnd Hns.
-  destruct (run_cases rules env F order ens k stack r s _ eq_refl)
-    as [(s4 & slots1 & slots3 & GA & GB) | (Hno & ks & GA)];
-    set (o := run rules env F order ens k stack r s) in *; clearbody o.
-  2:{ (* stopped before the task completed *)
-    split; [|intros s' ->; exfalso; now apply (Hno s')].
-    destruct (seg_frame _ _ _ _ GA) as [A _].
-    destruct o as [s'|s' p|]; [exfalso; now apply (Hno s') | | exact I].
-    cbn [frame_o] in *. set (lA := new_log (run_pre rules k r s) s') in *. clearbody lA.
-    eapply frame_new_log with (l := lA ++ run_pre_log rules k r).
-    destruct A. constructor.
-    - rewrite fr_log0, run_pre_log_eq. now rewrite app_assoc.
-    - now rewrite fr_epoch0, run_pre_epoch.
-    - now rewrite fr_dbepoch0, run_pre_dbepoch.
-    - intros x Hx. rewrite fr_frozen0; [now rewrite run_pre_mem|]. unfold done. now rewrite run_pre_mem, run_pre_epoch.
-    - intros x Hx. rewrite fr_stack0; [now rewrite run_pre_mem | now right].
-    - intros x Hx. apply fr_flag0 in Hx. unfold flagged in *. now rewrite run_pre_flag in Hx.
-    - intros x Hx. rewrite creates_app, in_app_iff in Hx. rewrite fr_flag_keep0 by tauto. unfold flagged. now rewrite run_pre_flag.
-    - intros x Hx. rewrite creates_app, in_app_iff in Hx. rewrite fr_db_keep0 by tauto. now rewrite run_pre_db.
-    - rewrite creates_app, run_pre_creates. apply NoDup_app_intro; [exact fr_nodup0 | repeat constructor; intros [] |].
-      intros x Hx [E|[]]. subst x. destruct (fr_fresh0 k Hx) as [_ Q]. apply Q. now left.
-    - intros x Hx. rewrite creates_app, run_pre_creates, in_app_iff in Hx. destruct Hx as [Hx|[<-|[]]]; [|tauto].
-      destruct (fr_fresh0 x Hx) as [P Q]. split.
-      + intros C. apply P. unfold done. now rewrite run_pre_mem, run_pre_epoch.
-      + intros C. apply Q. now right.
-    - intros; discriminate.
-    - intros; discriminate. }
-  (* the task completed; discovered dependencies follow *)
-  destruct (seg_frame _ _ _ _ GA) as [A _]. destruct (seg_frame _ _ _ _ GB) as [B _].
-  cbn [frame_o] in A.
-  set (s0 := run_pre rules k r s) in *. set (lA := new_log s0 s4) in *. clearbody lA.
-  set (bk := branch_keys (rules k) slots1) in *. set (v := task_value rules env F k (rules k) slots1 slots3) in *.
+  intros k stack r s s4 lA bk v Hnd Hns A.
+  set (s0 := run_pre rules k r s) in *.
   set (s6 := complete order (emit s4 (EAvail k)) k (rules k) r bk v) in *.
   assert (H0mem : st_mem s0 = st_mem s) by apply run_pre_mem.
   assert (H0ep : st_epoch s0 = st_epoch s) by apply run_pre_epoch.
@@ -462,9 +434,7 @@ Proof.
   { intros x Hx. unfold s6. now rewrite complete_db_other. }
   assert (Hlog6 : st_log s6 = EComplete k v :: EAvail k :: st_log s4) by reflexivity.
   assert (Hnk : ~ In k (creates lA)) by (intros C; destruct (fr_fresh _ _ _ _ _ A k C) as [_ Q]; apply Q; now left).
-  assert (Main : forall s' ok lB, frame_st (k :: stack) s6 s' ok lB ->
-            frame_st stack s s' ok (lB ++ [EComplete k v; EAvail k] ++ lA ++ run_pre_log rules k r) /\ done s' k).
-  { intros s' ok lB B'.
+  intros s' ok lB B'.
     assert (HnkB : ~ In k (creates lB)) by (intros C; destruct (fr_fresh _ _ _ _ _ B' k C) as [_ Q]; apply Q; now left).
     assert (Hm6 : forall x, done s6 x -> done s' x) by (intros x; eapply frame_done_mono; exact B').
     split; [|now apply Hm6].
@@ -512,7 +482,48 @@ Proof.
       + destruct (fr_touch _ _ _ _ _ B' Hok x) as [E2|[N2 D2]].
         * left. rewrite E2, H6other, E1 by assumption. now rewrite H0mem.
         * right. split; [|exact D2]. intros C. apply N2. apply Hd46; [assumption|]. apply Hm04. now apply Hd0.
-      + right. split; [intros C; apply N1; now apply Hd0|]. apply Hm6. now apply Hd46. }
+      + right. split; [intros C; apply N1; now apply Hd0|]. apply Hm6. now apply Hd46.
+Qed.
+
+Lemma run_frame : forall k stack r s, ~ done s k -> ~ In k stack ->
+  frame stack s k (run rules env F order ens k stack r s).
+Proof.
+  intros k stack r s Hnd Hns.
+  destruct (run_cases rules env F order ens k stack r s _ eq_refl)
+    as [(s4 & slots1 & slots3 & GA & GB) | (Hno & ks & GA)];
+    set (o := run rules env F order ens k stack r s) in *; clearbody o.
+  2:{ (* stopped before the task completed *)
+    split; [|intros s' ->; exfalso; now apply (Hno s')].
+    destruct (seg_frame _ _ _ _ GA) as [A _].
+    destruct o as [s'|s' p|]; [exfalso; now apply (Hno s') | | exact I].
+    cbn [frame_o] in *. set (lA := new_log (run_pre rules k r s) s') in *. clearbody lA.
+    eapply frame_new_log with (l := lA ++ run_pre_log rules k r).
+    destruct A. constructor.
+    - rewrite fr_log0, run_pre_log_eq. now rewrite app_assoc.
+    - now rewrite fr_epoch0, run_pre_epoch.
+    - now rewrite fr_dbepoch0, run_pre_dbepoch.
+    - intros x Hx. rewrite fr_frozen0; [now rewrite run_pre_mem|]. unfold done. now rewrite run_pre_mem, run_pre_epoch.
+    - intros x Hx. rewrite fr_stack0; [now rewrite run_pre_mem | now right].
+    - intros x Hx. apply fr_flag0 in Hx. unfold flagged in *. now rewrite run_pre_flag in Hx.
+    - intros x Hx. rewrite creates_app, in_app_iff in Hx. rewrite fr_flag_keep0 by tauto. unfold flagged. now rewrite run_pre_flag.
+    - intros x Hx. rewrite creates_app, in_app_iff in Hx. rewrite fr_db_keep0 by tauto. now rewrite run_pre_db.
+    - rewrite creates_app, run_pre_creates. apply NoDup_app_intro; [exact fr_nodup0 | repeat constructor; intros [] |].
+      intros x Hx [E|[]]. subst x. destruct (fr_fresh0 k Hx) as [_ Q]. apply Q. now left.
+    - intros x Hx. rewrite creates_app, run_pre_creates, in_app_iff in Hx. destruct Hx as [Hx|[<-|[]]]; [|tauto].
+      destruct (fr_fresh0 x Hx) as [P Q]. split.
+      + intros C. apply P. unfold done. now rewrite run_pre_mem, run_pre_epoch.
+      + intros C. apply Q. now right.
+    - intros; discriminate.
+    - intros; discriminate. }
+  (* the task completed; discovered dependencies follow *)
+  destruct (seg_frame _ _ _ _ GA) as [A _]. destruct (seg_frame _ _ _ _ GB) as [B _].
+  cbn [frame_o] in A.
+  set (s0 := run_pre rules k r s) in *. set (lA := new_log s0 s4) in *. clearbody lA.
+  set (bk := branch_keys (rules k) slots1) in *. set (v := task_value rules env F k (rules k) slots1 slots3) in *.
+  set (s6 := complete order (emit s4 (EAvail k)) k (rules k) r bk v) in *.
+  assert (Main : forall s' ok lB, frame_st (k :: stack) s6 s' ok lB ->
+            frame_st stack s s' ok (lB ++ [EComplete k v; EAvail k] ++ lA ++ run_pre_log rules k r) /\ done s' k)
+    by (intros s' ok lB B'; eapply run_frame_main; eassumption).
   destruct o as [s'|s' p|]; cbn [frame_o] in B.
   - destruct (Main _ _ _ B) as [M1 M2]. split; [cbn [frame_o]; eapply frame_new_log; exact M1|].
     intros s'' E. inversion E. subst s''. exact M2.
